@@ -2,6 +2,7 @@ SPECIFICATION Spec
 CONSTANTS
   N = 4
   Mode = "single"
+  Overlap = FALSE
   Vals = {1, 2, 3}
 INVARIANTS
   SizesAddUp
